@@ -1,6 +1,6 @@
 (* Props/C15.v -- property C15: connections live while referenced, expire 32 s after last use, never reused dead *)
 From Coq Require Import List Arith NArith Bool.
-From EZK Require Import Gen.Tables Model.C15 Proofs.C15.
+From EZK Require Import Model.Forms9 Proofs.Forms9 Gen.Tables Model.C15 Proofs.C15.
 Import ListNotations.
 Open Scope N_scope.
 
@@ -83,3 +83,16 @@ Theorem C15_message_beats_idle_timer : forall s d r,
   stream_frame_before_idle_timer = true -> panicked s = false -> tsk s = TUnused d false -> ent s = EUnused -> inbox s = true :: r ->
   exists s', task_step s = Some s' /\ delivered s' = S (delivered s) /\ ent s' = EUsed /\ inbox s' = r.
 Proof. exact frame_beats_idle_timer. Qed.
+
+(* "an accepted connection that stays silent for 32 s is closed" - counted from the accept: the timer is created when accept() has
+   returned; created before accept() is awaited, the 32 s would run from the moment the listener started waiting *)
+Theorem C15_idle_timer_guard : idle_timer_armed_at_accept = true.
+Proof. reflexivity. Qed.
+
+Theorem C15_accepted_connection_gets_32s : idle_timer_armed_at_accept = true ->
+  forall listening_since accepted_at, idle_deadline listening_since accepted_at = (accepted_at + 32000)%N.
+Proof. exact idle_deadline_here. Qed.
+
+Theorem C15_timer_before_accept_refuted : forall listening_since accepted_at, (listening_since < accepted_at)%N ->
+  (idle_deadline_form false listening_since accepted_at < accepted_at + 32000)%N.
+Proof. exact idle_deadline_early. Qed.
